@@ -34,9 +34,34 @@ def plan(prop, tier):
     if f is None:
         return None
     p = f(tier)
+    _few_cpu_jobs(p, tier)
     p.setdefault("assumptions", [])
     p["assumptions"] = p["assumptions"] + COMMON_ASSUMPTIONS
     return p
+
+
+def _few_cpu_jobs(p, tier):
+    """Properties whose code has no threads today still get a slice of their workload under
+    affinity masks of 1, 2 and 3 CPUs (available_parallelism() follows the mask): a change that
+    parallelises a search or a check, and is wrong only for some worker counts, then meets several
+    of them. Plans that already sweep CPU masks are left alone."""
+    jobs = p["jobs"]
+    if any("cpus" in j for j in jobs):
+        return
+    native = [j for j in jobs if j["engine"] in ("rel", "chk")]
+    if not native:
+        return
+    base = max(native, key=lambda j: j["hi"] - j["lo"])
+    n = max(300, min(6000, (base["hi"] - base["lo"]) // 40))
+    if tier != "quick":
+        n *= 4
+    nxt = max(j["hi"] for j in jobs)
+    for c in (1, 2, 3):
+        j = dict(engine="chk", lo=nxt, hi=nxt + n, shard=-(-n // 2), cpus=c)
+        if "params" in base:
+            j["params"] = dict(base["params"])
+        jobs.append(j)
+        nxt += n
 
 
 def plan_C01(tier):
